@@ -60,7 +60,13 @@ Definition condensed (n : nat) (C : list R) (C3 : list R) (pi : nat -> nat) (o :
 Definition id_map (k : nat) : nat := k.
 (* PIPE convention in 2D: the second and third material axes are exchanged, the in-plane shear is the (1,3) shear *)
 Definition pipe_map (k : nat) : nat := match k with 1 => 2 | 2 => 1 | 3 => 4 | _ => k end%nat.
+(* components kept by a condensation on component o of the reduced tensor (row and column o are zero) *)
+Definition keep_but (o k : nat) : bool := negb (Nat.eqb k o).
 Definition keep2 (k : nat) : bool := negb (Nat.eqb k 2).
+Definition keep1 (k : nat) : bool := negb (Nat.eqb k 1).
+(* 6x6 isotropic tensor of Lame's coefficients *)
+Definition iso6 (la mu : R) : list R :=
+  flat_map (fun i => map (fun j => iso_entry la mu i j) [0; 1; 2; 3; 4; 5]%nat) [0; 1; 2; 3; 4; 5]%nat.
 
 (* ---- every (modelling hypothesis, axes convention, alteration) combination -------------------------------------------
    Written from the documentation (OrthotropicAxesConvention.hxx, StiffnessTensor.hxx), not from the code.
@@ -86,12 +92,14 @@ Definition exchanged (h : hyp) (c : conv) : bool :=
   match c, h with Pipe, (PStress | PStrain | GPStrain) => true | _, _ => false end.
 Definition axes_map (h : hyp) (c : conv) : nat -> nat := if exchanged h c then pipe_map else id_map.
 (* ALTERED: "the effective stiffness tensor obtained by eliminating the effect of the axial strain", meaningful only for the
-   plane stress hypotheses; in every other case the UNALTERED tensor.  The component eliminated is the third one of the
-   reduced tensor (for the 1D hypothesis see NOTES.md). *)
+   plane stress hypotheses; in every other case the UNALTERED tensor.  The component eliminated is the one whose STRESS the
+   hypothesis prescribes: zz in both cases, which is the third component of the 2D vectors (xx, yy, zz, xy) and the SECOND
+   component of the 1D vectors (rr, zz, tt). *)
 Definition is_condensed (h : hyp) (a : alt) : bool :=
   match a, h with Altered, (PStress | AGPStress) => true | _, _ => false end.
+Definition cond_comp (h : hyp) : nat := match h with AGPStress => 1 | _ => 2 end%nat.
 Definition reduces (h : hyp) (c : conv) (a : alt) (C C3 : list R) : Prop :=
-  if is_condensed h a then condensed (hyp_size h) C C3 (axes_map h c) (axes_map h c 2) keep2
+  if is_condensed h a then condensed (hyp_size h) C C3 (axes_map h c) (axes_map h c (cond_comp h)) (keep_but (cond_comp h))
   else sub_block (hyp_size h) C C3 (axes_map h c).
 
 (* principal 2x2 minor of the compliance that excludes the normal axis o: the condensation on axis o is defined when it does not vanish *)
@@ -112,8 +120,18 @@ Definition combo_key (e : combo) : nat * nat * nat := let '(h, c, a, _) := e in 
 Definition combo_ok (ref3d : ofun) (e : combo) : Prop :=
   let '(h, c, a, f) := e in
   forall E1 E2 E3 n12 n23 n13 G12 G23 G13, nondegenerate E1 E2 E3 n12 n23 n13 ->
-    (is_condensed h a = true -> minor E1 E2 E3 n12 n23 n13 (axes_map h c 2) <> 0) ->
+    (is_condensed h a = true -> minor E1 E2 E3 n12 n23 n13 (axes_map h c (cond_comp h)) <> 0) ->
     reduces h c a (f E1 E2 E3 n12 n23 n13 G12 G23 G13) (ref3d E1 E2 E3 n12 n23 n13 G12 G23 G13).
+(* the statement of a row is false: admissible constants for which the tensor is not the documented reduction *)
+Definition combo_refuted (ref3d : ofun) (e : combo) : Prop :=
+  let '(h, c, a, f) := e in
+  exists E1 E2 E3 n12 n23 n13 G12 G23 G13, nondegenerate E1 E2 E3 n12 n23 n13 /\
+    minor E1 E2 E3 n12 n23 n13 (axes_map h c (cond_comp h)) <> 0 /\
+    ~ reduces h c a (f E1 E2 E3 n12 n23 n13 G12 G23 G13) (ref3d E1 E2 E3 n12 n23 n13 G12 G23 G13).
+(* the rows of the ALTERED tensor of the axisymmetrical generalised plane stress hypothesis *)
+Definition agps_altered (e : combo) : bool :=
+  let '(h, _, a, _) := e in match h, a with AGPStress, Altered => true | _, _ => false end.
+Definition not_agps_altered (e : combo) : bool := negb (agps_altered e).
 (* every documented combination is present in a table of keys *)
 Definition keys_complete (keys : list (nat * nat * nat)) : bool :=
   forallb (fun h => forallb (fun c => forallb (fun a =>
